@@ -2,6 +2,7 @@ package main
 
 import (
 	"fmt"
+	"reflect"
 	"unsafe"
 
 	"github.com/yaricom/goNEAT/v4/neat"
@@ -84,16 +85,84 @@ func c06Referenced(g *genetics.Genome) map[unsafe.Pointer]string {
 	return m
 }
 
+// reachable walks the complete object graph below root (exported and unexported fields, slices, maps,
+// interfaces) and returns the address of every heap object it references: pointer targets, slice
+// backing arrays and maps. Zero-size objects and empty slices are skipped (the runtime gives all of
+// them one address).
+func reachable(root interface{}) map[unsafe.Pointer]string {
+	seen := map[unsafe.Pointer]string{}
+	var walk func(v reflect.Value, path string, depth int)
+	walk = func(v reflect.Value, path string, depth int) {
+		if depth > 60 {
+			return
+		}
+		switch v.Kind() {
+		case reflect.Ptr:
+			if v.IsNil() || v.Type().Elem().Size() == 0 {
+				return
+			}
+			p := unsafe.Pointer(v.Pointer())
+			if _, ok := seen[p]; ok {
+				return
+			}
+			seen[p] = path
+			walk(v.Elem(), path, depth+1)
+		case reflect.Interface:
+			if !v.IsNil() {
+				walk(v.Elem(), path, depth+1)
+			}
+		case reflect.Struct:
+			for i := 0; i < v.NumField(); i++ {
+				f := v.Field(i)
+				if !f.CanInterface() && f.CanAddr() {
+					f = reflect.NewAt(f.Type(), unsafe.Pointer(f.UnsafeAddr())).Elem()
+				}
+				walk(f, path+"."+v.Type().Field(i).Name, depth+1)
+			}
+		case reflect.Slice:
+			if v.IsNil() || v.Cap() == 0 || v.Type().Elem().Size() == 0 {
+				return
+			}
+			p := unsafe.Pointer(v.Pointer())
+			if _, ok := seen[p]; !ok {
+				seen[p] = path + "[]"
+			}
+			for i := 0; i < v.Len(); i++ {
+				walk(v.Index(i), fmt.Sprintf("%s[%d]", path, i), depth+1)
+			}
+		case reflect.Array:
+			for i := 0; i < v.Len(); i++ {
+				walk(v.Index(i), fmt.Sprintf("%s[%d]", path, i), depth+1)
+			}
+		case reflect.Map:
+			if v.IsNil() {
+				return
+			}
+			p := unsafe.Pointer(v.Pointer())
+			if _, ok := seen[p]; ok {
+				return
+			}
+			seen[p] = path + "{}"
+			for _, k := range v.MapKeys() {
+				walk(v.MapIndex(k), fmt.Sprintf("%s{%v}", path, k), depth+1)
+			}
+		}
+	}
+	walk(reflect.ValueOf(root), "genome", 0)
+	return seen
+}
+
 var c06Mutators = []string{"toggleEnable", "reEnable", "nodeTrait", "linkTrait", "randomTrait", "linkWeights", "addNode", "addLink", "connectSensors"}
 
 type c06Case struct {
 	State   *GenomeSpec `json:"state"`
 	Mutator string      `json:"mutator"` // "" = duplicate only
 	Side    string      `json:"side"`    // copy | original
+	Used    bool        `json:"used"`    // the original has been expressed (Genesis) and its nodes carry learning parameters before it is duplicated
 }
 
 func c06Violate(c *Ctx, cs *c06Case, x *Exec, clause, msg string) {
-	params := map[string]interface{}{"mutator": cs.Mutator, "side": cs.Side, "state": cs.State, "policy": x.policy.String()}
+	params := map[string]interface{}{"mutator": cs.Mutator, "side": cs.Side, "state": cs.State, "used": cs.Used, "policy": x.policy.String()}
 	rp := &Replay{Scenario: "duplicate", Params: params, Answers: x.Answers(), Clause: msg, Trace: cs.State.Short()}
 	c.ViolateOrd("C06/"+clause, int64(len(cs.State.Genes)*100+len(cs.State.Nodes)*10+len(cs.State.Modules)*5000), fmt.Sprintf("[duplicate of %s; then %s on the %s] %s", cs.State.Short(), cs.Mutator, cs.Side, msg), rp)
 }
@@ -101,6 +170,16 @@ func c06Violate(c *Ctx, cs *c06Case, x *Exec, clause, msg string) {
 func c06Body(c *Ctx, cs *c06Case) func(x *Exec) {
 	return func(x *Exec) {
 		g := cs.State.Build()
+		if cs.Used {
+			// state left behind by earlier use of the original: a cached phenotype (Genesis stores a
+			// reference to the phenotype node in every genome node) and user-set learning parameters
+			if _, err := g.Genesis(1); err != nil {
+				return
+			}
+			for i, n := range g.Nodes {
+				n.Params = []float64{float64(i), 0.5}
+			}
+		}
 		before := SpecOf(g)
 		d, err := g.VDuplicate(g.Id + 100)
 		if err != nil {
@@ -129,6 +208,48 @@ func c06Body(c *Ctx, cs *c06Case) func(x *Exec) {
 			if o, shared := own[p]; shared {
 				c06Violate(c, cs, x, "shared-pointer", fmt.Sprintf("the copy's %s is the original's %s (shared mutable state)", what, o))
 				return
+			}
+		}
+		// generic walk: nothing reachable from the copy may be reachable from the original
+		if cs.Mutator == "" {
+			all := reachable(g)
+			for p, what := range reachable(d) {
+				if o, shared := all[p]; shared {
+					c06Violate(c, cs, x, "shared-pointer", fmt.Sprintf("the object at the copy's %s is also reachable from the original (%s): shared mutable state", what, o))
+					return
+				}
+			}
+		}
+		if cs.Used {
+			// expressing the copy must not touch the original or its network
+			onet := g.Phenotype
+			var sig []float64
+			if onet != nil {
+				for _, n := range onet.AllNodes() {
+					sig = append(sig, n.Activation, float64(n.ActivationsCount), float64(len(n.Incoming)), float64(len(n.Outgoing)))
+				}
+			}
+			if _, err := d.Genesis(2); err == nil {
+				if g.Phenotype != onet {
+					c06Violate(c, cs, x, "not-independent", "expressing the copy replaced the original's cached network")
+					return
+				}
+				k := 0
+				for _, n := range onet.AllNodes() {
+					for _, v := range []float64{n.Activation, float64(n.ActivationsCount), float64(len(n.Incoming)), float64(len(n.Outgoing))} {
+						if !sameF(v, sig[k]) {
+							c06Violate(c, cs, x, "not-independent", "expressing the copy changed the original's network")
+							return
+						}
+						k++
+					}
+				}
+				for i, n := range g.Nodes {
+					if n.PhenotypeAnalogue != nil && d.Nodes[i].PhenotypeAnalogue == n.PhenotypeAnalogue {
+						c06Violate(c, cs, x, "shared-pointer", fmt.Sprintf("after expressing both, node %d of the copy and of the original refer to the same network node", n.Id))
+						return
+					}
+				}
 			}
 		}
 		if cs.Mutator == "" {
@@ -224,7 +345,7 @@ func runC06(c *Ctx) {
 				c.MarkCapped("internal deadline reached before every state was duplicated")
 				break
 			}
-			cases := []*c06Case{{State: st}}
+			cases := []*c06Case{{State: st}, {State: st, Used: true}}
 			if len(st.Modules) == 0 || true {
 				for _, m := range c06Mutators {
 					cases = append(cases, &c06Case{State: st, Mutator: m, Side: "copy"}, &c06Case{State: st, Mutator: m, Side: "original"})
@@ -243,6 +364,7 @@ func runC06(c *Ctx) {
 					if cs.Mutator == "" {
 						break
 					}
+
 				}
 			}
 			c.Distinct(hashString(st.Key()))
